@@ -26,7 +26,7 @@ def run(R):
     R.drive("c15", "out=" + tr1, "cases=" + cf, timeout=3000)
     R.validate("Trace_PDesc", tr1, reset_events=("PDesc",), timeout=3000)
     tr2 = os.path.join(R.scratch, "c15-b.ndjson")
-    R.drive("c15", "out=" + tr2, "n=%d" % (300 if q else 12000), "seed=%d" % R.seed, timeout=3000)
+    R.drive("c15", "out=" + tr2, "n=%d" % (300 if q else 4000), "seed=%d" % R.seed, timeout=3000)
     R.validate("Trace_PDesc", tr2, reset_events=("PDesc",), timeout=3000)
     R.extra_cov["tlc_schemas_replayed"] = len(cases)
     return vlib.finish(R, "model_checking", RULE, ASSUME)
